@@ -158,15 +158,17 @@ def lookup(ex, name):
             if s.mode == 'conc': s.trace.append(('assert', what, int(bool(c[2])))); return
             if isinstance(c[2], int):
                 if not c[2]:
-                    r, m = (z3.sat, st.model) if st.model is not None else s.check(st)
-                    if r == z3.sat: s.violations.append(Violation('assert', what, m, st))
-                    elif r == z3.unknown: s.undecided.append((what, 'path condition unknown'))
+                    m = s.full_model(st)
+                    if m is not None: s.violations.append(Violation('assert', what, m, st))
+                    else: s.undecided.append((what, 'path condition unknown'))
                 else: s.stats['asserts_proved'] += 1
                 return
             cb = as_cond(c)
             finalize_axioms(s, st)
             r, m = s.check(st, [z3.Not(cb)])
-            if r == z3.sat: s.violations.append(Violation('assert', what, m, st))
+            if r == z3.sat:
+                fm = s.full_model(st, [z3.Not(cb)])
+                s.violations.append(Violation('assert', what, fm if fm is not None else m[0], st, '' if fm is not None else 'model covers the relevant slice of the path condition only'))
             elif r == z3.unknown: s.undecided.append((what, 'solver unknown'))
             else: s.stats['asserts_proved'] += 1
             s.add_pc(st, cb)        # continue under the assertion (as CBMC does after a checked assert)
@@ -328,7 +330,7 @@ def libm(s, st, name, a):
                 if mono > 0: use(name + ' monotone increasing (pairwise instances)', z3.And(z3.Implies(x <= y, r <= r_), z3.Implies(y <= x, r_ <= r), z3.Implies(x < y, r < r_) if name != 'sqrt' else True))
                 else: use(name + ' monotone decreasing (pairwise instances)', z3.And(z3.Implies(x <= y, r >= r_), z3.Implies(y <= x, r_ >= r)))
     st.apps.append((name, tuple(X), r))
-    for c in ax: st.pc.append(c)
+    for c in ax: s.add_pc(st, c)
     if s.domain_checks: domain_arg(s, st, name, X)
     return ('f', r)
 
@@ -339,6 +341,6 @@ def domain_arg(s, st, name, X):
     elif name == 'log': bad = x <= 0
     if bad is None: return
     r, m = s.check(st, [bad])
-    if r == z3.sat: s.domain_issues.append(('%s: argument outside its domain' % name, m, st.clone()))
+    if r == z3.sat: s.domain_issues.append(('%s: argument outside its domain' % name, s.full_model(st, [bad]) or m[0], st.clone()))
 
 def finalize_axioms(s, st): pass
